@@ -231,6 +231,31 @@ def run_one(ck, prog):
         tf = [(bb, t) for bb, t in ctx.cfg.calls(lambda t: (t.get("callee") or "").endswith("TryFrom::try_from"))]
         tys = sorted((t.get("resolved") or t.get("generic") or "") for bb, t in tf)
         ck.ob("C19.3", "sub_ts_checked_dur|try_from-conversions", len(tf) == 2, fn=f3["path"], detail=f"seconds and nanoseconds must be converted with u64::try_from and u32::try_from (found {len(tf)} try_from calls)")
+        # what comes back is the signed difference, converted: the seconds of every Duration built here go through try_from of a value
+        # that depends on both operands' seconds (a constant, or an absolute difference, answers Some for an earlier-minus-later pair)
+        def both_seconds(e):
+            got = set()
+            for z in walk_deep(e, ctx.prov, limit=400):
+                if z[0] == "call" and (z[1] or "").endswith("TimeSpec::seconds") and z[2]:
+                    for y in walk_deep(z[2][0], ctx.prov, limit=40):
+                        if y[0] == "param":
+                            got.add(y[1])
+            return len(got) >= 2
+        durs = [(bb, t) for bb, t in ctx.cfg.calls(lambda t: (t.get("callee") or "").endswith("Duration::new"))]
+        ck.floor("C19.3", "Duration::new sites in sub_ts_checked_dur", len(durs), 1)
+        for bb, t in durs:
+            a0 = ctx.args(bb)[0]
+            ok = mentions(a0, ctx.prov, lambda z: z[0] == "call" and (z[1] or "").endswith("TryFrom::try_from") and z[2] and both_seconds(z[2][0]))
+            ck.ob("C19.3", "sub_ts_checked_dur|result-seconds-is-the-converted-difference", ok, fn=f3["path"], site=ctx.site(bb),
+                  detail=f"the seconds of the result are {show(a0)[:100]}; they must be u64::try_from(<lhs seconds - rhs seconds - borrow>), which is what turns a negative difference into None")
+    for nm in ("sub_ts_checked_dur", "checked_sub_dur", "checked_add_dur"):
+        fx = prog.fns.get(T + nm)
+        if fx is None:
+            continue
+        cx = prog.ctx(fx)
+        lost = [(bb, t.get("callee")) for bb, t in cx.cfg.calls(lambda t: (t.get("callee") or "").endswith(("::abs_diff", "::abs", "::unsigned_abs", "::wrapping_abs", "::saturating_abs", "::checked_abs")))]
+        ck.ob("C19.3", f"{nm}|sign-of-a-difference-is-never-discarded", not lost, fn=fx["path"], site=cx.site(lost[0][0]) if lost else None,
+              detail=f"{lost[0][1] if lost else ''} discards the sign of a difference: an earlier-minus-later pair then yields Some instead of None")
 
     # ---- C19.4 callers of the unchecked variant -------------------------------------------------------------------------------------
     cg = prog.callgraph()
